@@ -4,6 +4,7 @@ import BromeliaVerif.Model.Address
 import BromeliaVerif.Model.Ipv4
 import BromeliaVerif.Model.Time
 import BromeliaVerif.Model.Tbcd
+import BromeliaVerif.Model.Uri
 /-! Typed constructors `cls(value)` of the dictionary classes (bromelia/types.py and the special
 constructors), per data-type kind: which Python values are accepted, which data bytes result, which
 error class is raised. The table in DESIGN.md Appendix D.1 is the prose version. Grouped from a
@@ -61,9 +62,9 @@ def construct (k : Kind) (values : List Nat) : PyVal → Built
     | _ => .unmodelled
   | .diameterURI =>
     match v with
-    | .bytes b => if startsWith (ascii "aaa://") b || startsWith (ascii "aaas://") b then .unmodelled
-                  else .unmodelled
-    | .str _ => .unmodelled
+    | .bytes b => if Uri.acceptsBytes b == some true then .ok b else .err (.lib "DataTypeError")
+    | .str s => if Uri.accepts (s.map Char.ofNat) then .ok (utf8 s) else .err (.lib "DataTypeError")
+    | .ip _ _ | .badip => .unmodelled
     | _ => .err (.lib "DataTypeError")
   | .integer32 =>
     match v with
@@ -136,6 +137,8 @@ def dataOf (k : Kind) (values : List Nat) : PyVal → Option Bytes
   | .sessionId, .bytes b | .tbcd, .bytes b => some b
   | .octetString, .str s | .utf8String, .str s | .diameterIdentity, .str s => some (utf8 s)
   | .integer32, .bytes b => if b.length = 4 then some b else none
+  | .diameterURI, .bytes b => if Uri.acceptsBytes b == some true then some b else none
+  | .diameterURI, .str s => if Uri.accepts (s.map Char.ofNat) then some (utf8 s) else none
   | .unsigned32, .int n => if 0 ≤ n ∧ n < 2 ^ 32 then some (be 4 n.toNat) else none
   | .unsigned32, .bytes b => if b.length = 4 then some b else none
   | .unsigned64, .int n => if 0 ≤ n ∧ n < 2 ^ 64 then some (be 8 n.toNat) else none
